@@ -15,7 +15,13 @@ package main
 // the hist engine (mode C15).
 
 import (
+	"google.golang.org/protobuf/proto"
+	"sort"
+
 	"fmt"
+	"github.com/yorkie-team/yorkie/api/converter"
+	api "github.com/yorkie-team/yorkie/api/yorkie/v1"
+	"runtime/debug"
 	"strings"
 
 	"verifharness/internal/hist"
@@ -33,8 +39,10 @@ func init() { register("undosync", runUndoSync) }
 
 type miniServer struct {
 	log   []*change.Change
+	wire  [][]byte // the same changes as encoded when they were pushed
 	vvs   map[int]time.VersionVector
 	reuse bool // some pushed change re-uses an identity (Set restoring an old createdAt, restore edits)
+	noGC  bool // never tell the clients a minimum vector (nothing is ever purged)
 }
 
 func (m *miniServer) sync(i int, d *document.Document) error {
@@ -42,6 +50,15 @@ func (m *miniServer) sync(i int, d *document.Document) error {
 	for _, c := range p.Changes {
 		c.SetServerSeq(int64(len(m.log) + 1))
 		m.log = append(m.log, c)
+		pbs, err := converter.ToChanges([]*change.Change{c})
+		if err != nil {
+			return fmt.Errorf("mini server: encode: %w", err)
+		}
+		raw, err := proto.Marshal(pbs[0])
+		if err != nil {
+			return fmt.Errorf("mini server: marshal: %w", err)
+		}
+		m.wire = append(m.wire, raw)
 		for _, op := range c.Operations() {
 			switch o := op.(type) {
 			case *operations.Set:
@@ -64,11 +81,29 @@ func (m *miniServer) sync(i int, d *document.Document) error {
 	} else {
 		m.vvs[i] = d.VersionVector().DeepCopy()
 	}
+	// every receiver gets its own decoded copy of what was pushed, as over the wire: the author's
+	// change objects (and the elements inside their operations) are not shared between replicas
 	var pulled []*change.Change
 	from := d.Checkpoint().ServerSeq
-	for _, c := range m.log {
+	var bs []*api.Change
+	var seqs []int64
+	for k, c := range m.log {
 		if c.ServerSeq() > from && c.ID().ActorID() != d.ActorID() {
-			pulled = append(pulled, c)
+			cp := &api.Change{}
+			if err := proto.Unmarshal(m.wire[k], cp); err != nil {
+				return fmt.Errorf("mini server: unmarshal: %w", err)
+			}
+			bs = append(bs, cp)
+			seqs = append(seqs, c.ServerSeq())
+		}
+	}
+	if len(bs) > 0 {
+		var err error
+		if pulled, err = converter.FromChanges(bs); err != nil {
+			return fmt.Errorf("mini server: decode: %w", err)
+		}
+		for k, c := range pulled {
+			c.SetServerSeq(seqs[k])
 		}
 	}
 	var vs []time.VersionVector
@@ -76,6 +111,9 @@ func (m *miniServer) sync(i int, d *document.Document) error {
 		vs = append(vs, v)
 	}
 	minVV := time.MinVersionVector(vs...)
+	if m.noGC {
+		minVV = nil
+	}
 	resp := change.NewPack(d.Key(), change.NewCheckpoint(int64(len(m.log)), p.Checkpoint.ClientSeq), pulled, minVV, nil)
 	return d.ApplyChangePack(resp)
 }
@@ -110,7 +148,38 @@ var usEdits = map[string][][]hist.Edit{
 }
 
 func runUSHistory(flavor string, steps []usStep) (kind, detail string, reuse bool) {
-	srv := &miniServer{vvs: map[int]time.VersionVector{}}
+	kind, detail, reuse, _ = runUSHistoryGC(flavor, steps, false)
+	return
+}
+
+func usSig(flavor string, steps []usStep, finals [2]string, reuse bool) map[string]any {
+	g, o := usSignature(flavor, append([]usStep{}, steps...), finals)
+	return map[string]any{"flavor": flavor, "reuses_identity": reuse, "gc_only": g, "order_only": o}
+}
+
+// usSignature: does the failure need garbage collection at all, and do the replicas hold the same
+// pieces in a different order? (the facts finding P4 is recognised by)
+func usSignature(flavor string, steps []usStep, finals [2]string) (gcOnly, orderOnly bool) {
+	k2, _, _, _ := runUSHistoryGC(flavor, steps, true)
+	gcOnly = k2 == ""
+	canon := func(s string) string {
+		b := []byte(s)
+		sort.Slice(b, func(i, j int) bool { return b[i] < b[j] })
+		return string(b)
+	}
+	orderOnly = finals[0] != finals[1] && canon(finals[0]) == canon(finals[1])
+	return
+}
+
+func runUSHistoryGC(flavor string, steps []usStep, noGC bool) (kind, detail string, reuse bool, finals [2]string) {
+	srv := &miniServer{vvs: map[int]time.VersionVector{}, noGC: noGC}
+	// a panic inside the SDK (Document.GarbageCollect panics on a failed purge) is a verdict on the
+	// history, not the end of the enumeration
+	defer func() {
+		if p := recover(); p != nil {
+			kind, detail, reuse = "client-panic", fmt.Sprintf("%v at %s", p, panicSite(string(debug.Stack()))), srv.reuse
+		}
+	}()
 	docs := []*document.Document{newDrained("us", 1), newDrained("us", 2)}
 	_ = docs[0].Update(func(root *json.Object, p *presence.Presence) error {
 		hist.SetupEdits(root, "oatcnx")
@@ -124,72 +193,73 @@ func runUSHistory(flavor string, steps []usStep) (kind, detail string, reuse boo
 	})
 	_ = docs[0].ClearHistory()
 	if err := srv.sync(0, docs[0]); err != nil {
-		return "harness", err.Error(), false
+		return "harness", err.Error(), false, finals
 	}
 	if err := srv.sync(1, docs[1]); err != nil {
-		return "harness", err.Error(), false
+		return "harness", err.Error(), false, finals
 	}
 	if err := srv.sync(0, docs[0]); err != nil {
-		return "harness", err.Error(), false
+		return "harness", err.Error(), false, finals
 	}
 	for i, st := range steps {
 		d := docs[st.c]
 		switch st.k {
 		case "e":
 			if err, _ := hist.SafeUpdate(d, usEdits[flavor][st.e], ""); err != nil {
-				return "update-error", fmt.Sprintf("step %d %v: %v", i, st, err), srv.reuse
+				return "update-error", fmt.Sprintf("step %d %v: %v", i, st, err), srv.reuse, finals
 			}
 		case "z":
 			if !d.CanUndo() {
-				return "skip", "", false
+				return "skip", "", false, finals
 			}
 			if err, p, _ := safely(func() error { return d.Undo() }); err != nil {
-				return "undo-failed", fmt.Sprintf("step %d %v: %v (panic=%v)", i, st, err, p), srv.reuse
+				return "undo-failed", fmt.Sprintf("step %d %v: %v (panic=%v)", i, st, err, p), srv.reuse, finals
 			}
 		case "y":
 			if !d.CanRedo() {
-				return "skip", "", false
+				return "skip", "", false, finals
 			}
 			if err, p, _ := safely(func() error { return d.Redo() }); err != nil {
-				return "redo-failed", fmt.Sprintf("step %d %v: %v (panic=%v)", i, st, err, p), srv.reuse
+				return "redo-failed", fmt.Sprintf("step %d %v: %v (panic=%v)", i, st, err, p), srv.reuse, finals
 			}
 		case "s":
 			if err := srv.sync(st.c, d); err != nil {
-				return "sync-error", fmt.Sprintf("step %d %v: %v", i, st, err), srv.reuse
+				return "sync-error", fmt.Sprintf("step %d %v: %v", i, st, err), srv.reuse, finals
 			}
 		case "q":
 			// everybody syncs until nothing moves: all garbage that can be collected is collected
 			for round := 0; round < 3; round++ {
 				for c := 0; c < 2; c++ {
 					if err := srv.sync(c, docs[c]); err != nil {
-						return "sync-error", fmt.Sprintf("step %d quiescence, client %d: %v", i, c, err), srv.reuse
+						return "sync-error", fmt.Sprintf("step %d quiescence, client %d: %v", i, c, err), srv.reuse, finals
 					}
 				}
 			}
 		}
 		if d.Root().Marshal() != d.Marshal() {
-			return "clone-differs", fmt.Sprintf("after step %d %v: Root() = %s, Marshal() = %s", i, st, trunc(d.Root().Marshal(), 200), trunc(d.Marshal(), 200)), srv.reuse
+			return "clone-differs", fmt.Sprintf("after step %d %v: Root() = %s, Marshal() = %s", i, st, trunc(d.Root().Marshal(), 200), trunc(d.Marshal(), 200)), srv.reuse, finals
 		}
 	}
 	for round := 0; round < 3; round++ {
 		for c := 0; c < 2; c++ {
 			if err := srv.sync(c, docs[c]); err != nil {
-				return "sync-error", fmt.Sprintf("quiescent round %d client %d: %v", round, c, err), srv.reuse
+				return "sync-error", fmt.Sprintf("quiescent round %d client %d: %v", round, c, err), srv.reuse, finals
 			}
 		}
 	}
 	for c := 0; c < 2; c++ {
 		if docs[c].Root().Marshal() != docs[c].Marshal() {
-			return "clone-differs", fmt.Sprintf("client %d at the end: Root() = %s, Marshal() = %s", c, trunc(docs[c].Root().Marshal(), 200), trunc(docs[c].Marshal(), 200)), srv.reuse
+			return "clone-differs", fmt.Sprintf("client %d at the end: Root() = %s, Marshal() = %s", c, trunc(docs[c].Root().Marshal(), 200), trunc(docs[c].Marshal(), 200)), srv.reuse, finals
 		}
 	}
+	finals = [2]string{docs[0].Marshal(), docs[1].Marshal()}
 	if docs[0].Marshal() != docs[1].Marshal() {
-		return "diverged", fmt.Sprintf("client 0: %s  vs client 1: %s", trunc(docs[0].Marshal(), 300), trunc(docs[1].Marshal(), 300)), srv.reuse
+		return "diverged", fmt.Sprintf("client 0: %s  vs client 1: %s", trunc(docs[0].Marshal(), 300), trunc(docs[1].Marshal(), 300)), srv.reuse, finals
 	}
 	if docs[0].GarbageLen() != docs[1].GarbageLen() {
-		return "garbage-differs", fmt.Sprintf("GarbageLen %d vs %d after quiescence", docs[0].GarbageLen(), docs[1].GarbageLen()), srv.reuse
+		return "garbage-differs", fmt.Sprintf("GarbageLen %d vs %d after quiescence", docs[0].GarbageLen(), docs[1].GarbageLen()), srv.reuse, finals
 	}
-	return "", "", srv.reuse
+	return "", "", srv.reuse, finals
 }
 
 func runUndoSync(cfg *config) error {
@@ -215,7 +285,7 @@ func runUndoSync(cfg *config) error {
 		var rec func(edits [2]int, ur int, hasUndo bool)
 		rec = func(edits [2]int, ur int, hasUndo bool) {
 			if len(cur) > 0 && hasUndo {
-				kind, detail, reuse := runUSHistory(flavor, cur)
+				kind, detail, reuse, finals := runUSHistoryGC(flavor, cur, false)
 				if kind != "skip" {
 					res.Evaluations++
 					res.count("flavor." + flavor)
@@ -231,7 +301,7 @@ func runUndoSync(cfg *config) error {
 							res.Violations = append(res.Violations, Violation{Kind: kind,
 								Detail: fmt.Sprintf("%s history %s: %s", flavor, strings.Join(ss, " "), detail),
 								Replay: map[string]any{"flavor": flavor, "steps": ss},
-								Sig:    map[string]any{"flavor": flavor, "reuses_identity": reuse}})
+								Sig:    usSig(flavor, cur, finals, reuse)})
 						}
 					}
 				} else {
